@@ -7,6 +7,9 @@
 -/
 import Ctrmml.Proofs.Layout
 import Ctrmml.Proofs.Mml
+import Ctrmml.Proofs.LayoutLines
+import Ctrmml.Proofs.LayoutDec
+import Ctrmml.Proofs.StarDecimal
 import Ctrmml.Spec.Layout
 namespace Ctrmml.C06
 open Ctrmml Ctrmml.Tables Ctrmml.Lexer Ctrmml.TrackBuilder Ctrmml.Mml
@@ -179,13 +182,31 @@ theorem C06_track_list_ids (fuel : Nat) (c : Int) (acc : List Nat) (s : MmlState
 example : (readLine (tx "Z09*36*65535*65541A c") 0 MmlState.init).state.trackList = [25, 26, 35, 36, 65535, 5, 0] := by
   decide +kernel
 
-/-- the full statement for `*n`: on a decimal numeral `get_num()` reads its value (C05 keeps the
-same statement as `C05_full_statement_getNum_render`; not proved) -/
+/-- the full statement for `*n`: on a decimal numeral `get_num()` reads its value (proved:
+`C06_star_decimal` below) -/
 def C06_full_statement_star_decimal : Prop :=
   ∀ (s : MmlState) (pre ds rest : List Nat), ds ≠ [] → (∀ d ∈ ds, d < 10) → digitsValue 10 ds < 2147483648 →
     (∀ c, rest.head? = some c → digitVal 10 c = none) →
     s.inp.lb = { buf := pre ++ 42 :: (decChars ds ++ rest), column := pre.length } →
     getTrackId s = .ok (digitsValue 10 ds : Int) (setLb s { buf := pre ++ 42 :: (decChars ds ++ rest), column := pre.length + 1 + ds.length })
+
+/-- `*n`: for every non-empty decimal digit string (leading zeros included) whose value is an
+`int`, followed by anything but a decimal digit, `get_track_id()` returns the value and leaves the
+cursor behind the digits — for every line buffer (no assumption that the line holds bytes only) -/
+theorem C06_star_decimal : C06_full_statement_star_decimal := by
+  intro s pre ds rest hne hds hv hrest hb
+  rw [(C06_track_id_map s pre 42 (decChars ds ++ rest) hb).2.2 rfl]
+  have hbuf : pre ++ 42 :: (decChars ds ++ rest) = (pre ++ [42]) ++ decChars ds ++ rest := by simp
+  have hg := getNum_dec (pre ++ [42]) ds rest hne hds hv hrest
+  rw [← hbuf] at hg
+  have hlen : (pre ++ [42]).length = pre.length + 1 := by simp
+  rw [hlen] at hg
+  unfold getNumC
+  simp only [setLb, hg]
+
+/-- non-vacuity: `*007` followed by a blank is track 7 -/
+example : [0, 0, 7] ≠ [] ∧ (∀ d ∈ [0, 0, 7], d < 10) ∧ digitsValue 10 [0, 0, 7] = 7 ∧
+    (∀ c, (tx " c").head? = some c → digitVal 10 c = none) := by decide
 
 /-! ## continuation lines and multi-track lines -/
 
@@ -283,6 +304,129 @@ def C06_full_statement_multitrack_eq_single : Prop :=
     True →
     ((readLines 0 multi MmlState.init).state.song.tracks.lookup a).map Track.getEvents =
     ((readLines 0 single MmlState.init).state.song.tracks.lookup a).map Track.getEvents
+
+/-! ## whole-line layout invariance
+
+`Proofs/TrackStrip`, `Proofs/LayoutLine`, `Proofs/LayoutLines`.  A *layout* (`LLine`, `Tok`) of a
+command list for the track list `ids` is a list of lines, each of them
+
+* `hdr as b ts e`: a track list `as` (letters, digits, `*n`: `HeaderOk`) selecting exactly `ids`, one
+  blank or tab `b`, then tokens `ts` — blanks, tabs, `|`, commands in any arrangement — then the
+  end of the line `e` (nothing, or `;` and any comment);
+* `cont b ts e`: the same without the track list (a continuation line: first byte blank), allowed
+  once a header has been read (`LinesOk`);
+* `empty`, `comment r`: neutral lines in between.
+
+`ToksOk` asks of the tokens that blanks are space or tab and that every command's look-ahead
+condition of C05 (`CmdTail`) holds on the actual rest of its line — which is the case whenever the
+command is followed by at least one blank, tab, `|`, the comment or the end of the line
+(`C06_separator_suffices`), so a separator may be dropped only where the spelling stays unambiguous.
+`layoutCmds` are the commands of the layout in order.  The result is stated modulo the source
+references `parse_mml_track` stamps on the track and its events (`Track.strip`: line and column
+necessarily differ between layouts; `Track::get_events()` as the other properties see it carries
+no references, `strip_getEvents`). -/
+
+open Ctrmml.MmlMeaning (Cmd) in
+/-- every non-empty separator works: behind a blank, a tab, `|`, the `;` comment or at the end of
+the line, the look-ahead condition of every command holds -/
+theorem C06_separator_suffices (t : Track) (cmd : Cmd) (hn : CmdNums t cmd) (ts : List Tok) (e : List Nat) (hok : ToksOk ts e)
+    (hcov : ∀ c ∈ cmdsOf ts, Covered c) (he : EndOk e) (hts : ∀ c ts', ts ≠ Tok.cmd c :: ts') :
+    CmdTail cmd (toksText ts e) :=
+  cmdTail_of_sep t cmd hn ts e hok hcov he hts
+
+/-- A LAYOUT RUNS AS ITS COMMAND LIST (PARTIAL: `CmdsOk` — every command is in the subset C05
+covers, its numbers are `int`s accepted by the command, `&` finds its note; this is the only
+hypothesis beyond "the lines are a layout").  From any state, the lines of any layout for the
+distinct tracks `ids` are accepted, every listed track ends — up to source references — as after
+the builder calls of the layout's commands in order (`runCmds`), and no other track changes. -/
+theorem C06_layout_run_partial (ids : List Nat) (ls : List LLine) (n : Nat) (s : MmlState) (r : Bool)
+    (hnd : ids.Nodup) (hne : ids ≠ []) (hok : LinesOk ids r ls) (hready : r = true → Ready ids s)
+    (hcmds : ∀ id ∈ ids, CmdsOk (trackOf id s).strip (layoutCmds ls)) :
+    ∃ s', readLines n (ls.map LLine.text) s = .ok () s' ∧
+      (∀ id ∈ ids, (trackOf id s').strip = runCmds (trackOf id s).strip (layoutCmds ls)) ∧
+      (∀ b, b ∉ ids → s'.song.tracks.lookup b = s.song.tracks.lookup b) := by
+  obtain ⟨s', h1, h2⟩ := readLines_layout ids hnd hne ls n s r hok hready hcmds
+  exact ⟨s', h1, h2.tracks, h2.others⟩
+
+/-- LAYOUT INVARIANCE (PARTIAL: same extra hypothesis `CmdsOk`).  Two layouts of the same command
+list — different blanks, tabs and bars between the commands, different comments, a different split
+into header / continuation / neutral lines, different ways of writing the track list, even
+different companion tracks on the lines — started in states that agree on track `a` up to source
+references, are both accepted and leave track `a` the same up to source references; in particular
+`get_events()` of track `a` is the same list. -/
+theorem C06_layout_invariant_partial (a : Nat) (ids1 ids2 : List Nat) (ls1 ls2 : List LLine) (n1 n2 : Nat) (s1 s2 : MmlState) (r1 r2 : Bool)
+    (ha1 : a ∈ ids1) (ha2 : a ∈ ids2) (hnd1 : ids1.Nodup) (hnd2 : ids2.Nodup)
+    (hok1 : LinesOk ids1 r1 ls1) (hok2 : LinesOk ids2 r2 ls2) (hr1 : r1 = true → Ready ids1 s1) (hr2 : r2 = true → Ready ids2 s2)
+    (hsame : layoutCmds ls1 = layoutCmds ls2) (hstart : (trackOf a s1).strip = (trackOf a s2).strip)
+    (hc1 : ∀ id ∈ ids1, CmdsOk (trackOf id s1).strip (layoutCmds ls1))
+    (hc2 : ∀ id ∈ ids2, CmdsOk (trackOf id s2).strip (layoutCmds ls2)) :
+    ∃ s1' s2', readLines n1 (ls1.map LLine.text) s1 = .ok () s1' ∧ readLines n2 (ls2.map LLine.text) s2 = .ok () s2' ∧
+      (trackOf a s1').strip = (trackOf a s2').strip ∧ (trackOf a s1').getEvents = (trackOf a s2').getEvents := by
+  obtain ⟨s1', h1, t1, _⟩ := C06_layout_run_partial ids1 ls1 n1 s1 r1 hnd1 (List.ne_nil_of_mem ha1) hok1 hr1 hc1
+  obtain ⟨s2', h2, t2, _⟩ := C06_layout_run_partial ids2 ls2 n2 s2 r2 hnd2 (List.ne_nil_of_mem ha2) hok2 hr2 hc2
+  have hst : (trackOf a s1').strip = (trackOf a s2').strip := by rw [t1 a ha1, t2 a ha2, hsame, hstart]
+  refine ⟨s1', s2', h1, h2, hst, ?_⟩
+  rw [← Track.strip_getEvents, hst, Track.strip_getEvents]
+
+/-- MULTI-TRACK LINES = SINGLE-TRACK LINES (PARTIAL: `CmdsOk`; lines without conditional blocks).
+A layout addressed to the distinct tracks `ids` (`AB… body`) gives each of its tracks `a` exactly
+what any layout of the same commands addressed to `a` alone (`A body`) gives it. -/
+theorem C06_multitrack_eq_single_partial (ids : List Nat) (a : Nat) (multi single : List LLine) (n1 n2 : Nat) (s : MmlState)
+    (ha : a ∈ ids) (hnd : ids.Nodup) (hok1 : LinesOk ids false multi) (hok2 : LinesOk [a] false single)
+    (hsame : layoutCmds multi = layoutCmds single)
+    (hc : ∀ id ∈ ids, CmdsOk (trackOf id s).strip (layoutCmds multi)) :
+    ∃ s1' s2', readLines n1 (multi.map LLine.text) s = .ok () s1' ∧ readLines n2 (single.map LLine.text) s = .ok () s2' ∧
+      (trackOf a s1').strip = (trackOf a s2').strip ∧ (trackOf a s1').getEvents = (trackOf a s2').getEvents :=
+  C06_layout_invariant_partial a ids [a] multi single n1 n2 s s false false ha (by simp) hnd (by simp) hok1 hok2
+    (fun h => by cases h) (fun h => by cases h) hsame rfl hc
+    (fun id hid => by
+      have : id = a := by simpa using hid
+      subst this; rw [← hsame]; exact hc id ha)
+
+/-! ### non-vacuity: two concrete layouts of one command list -/
+
+open Ctrmml.MmlMeaning (Cmd Dur Acc Num) in
+/-- `o4 c d8. r > e+:12 &` -/
+def exCmds : List Cmd :=
+  [.octave { v := 4 }, .note 2 .none (.dflt 0), .note 3 .none (.len { v := 8 } 1), .rest (.dflt 0), .octUp,
+   .note 4 .sharp (.frames { v := 12 } 0), .slur]
+
+/-- `AB o4 c d8. r > e+:12 &` -/
+def exMulti : List LLine :=
+  [.hdr [.letter 0, .letter 1] 32
+    [.cmd (.octave { v := 4 }), .blank 32, .cmd (.note 2 .none (.dflt 0)), .blank 32, .cmd (.note 3 .none (.len { v := 8 } 1)), .blank 32,
+     .cmd (.rest (.dflt 0)), .blank 32, .cmd .octUp, .blank 32, .cmd (.note 4 .sharp (.frames { v := 12 } 0)), .blank 32, .cmd .slur] []]
+
+/-- `*1<tab>o4c|d8.  r;x`, an empty line, `; note`, ` <tab>>e+:12&  | ; done`: no separator where
+the spelling is unambiguous, a bar, double blanks, comments, neutral lines, a continuation line -/
+def exSingle : List LLine :=
+  [.hdr [.star 1] 9
+    [.cmd (.octave { v := 4 }), .cmd (.note 2 .none (.dflt 0)), .bar, .cmd (.note 3 .none (.len { v := 8 } 1)), .blank 32, .blank 32,
+     .cmd (.rest (.dflt 0))] (tx ";x"),
+   .empty, .comment (tx " note"),
+   .cont 32 [.blank 9, .cmd .octUp, .cmd (.note 4 .sharp (.frames { v := 12 } 0)), .cmd .slur, .blank 32, .blank 32, .bar, .blank 32] (tx "; done")]
+
+/-- the texts and the command lists are what the comments say -/
+example : exMulti.map LLine.text = [tx "AB o4 c d8. r > e+:12 &"] ∧
+    exSingle.map LLine.text = [tx "*1\to4c|d8.  r;x", [], tx "; note", tx " \t>e+:12&  | ; done"] ∧
+    layoutCmds exMulti = exCmds ∧ layoutCmds exSingle = exCmds := by
+  refine ⟨by decide, by decide, rfl, rfl⟩
+
+/-- the hypotheses of `C06_layout_run_partial`, `C06_layout_invariant_partial` and
+`C06_multitrack_eq_single_partial` hold for them, started on the empty song -/
+example : LinesOk [0, 1] false exMulti ∧ LinesOk [1] false exSingle ∧ [0, 1].Nodup ∧
+    (∀ id ∈ [0, 1], CmdsOk (trackOf id MmlState.init).strip (layoutCmds exMulti)) := by
+  decide +kernel
+
+/-- … and the model, evaluated on the two texts, agrees with the conclusion: track B gets the same events -/
+example :
+    ((outcome ["AB o4 c d8. r > e+:12 &"]).2.lookup 1) = ((outcome ["*1\to4c|d8.  r;x", "", "; note", " \t>e+:12&  | ; done"]).2.lookup 1) ∧
+    (outcome ["AB o4 c d8. r > e+:12 &"]).1 = none := by
+  decide +kernel
+
+/-- a separator behind a command: the hypothesis of `C06_separator_suffices` -/
+example : ∀ c ts', [Tok.blank 9, Tok.bar, Tok.cmd .octUp] ≠ Tok.cmd c :: ts' := by
+  intro c ts' h; cases h
 
 /-! ## D16: the textual scan of conditional blocks -/
 
